@@ -400,6 +400,16 @@ func (p propC14) Gen(r *simrt.Rand, idx int, tier string) any {
 		return C14Case{Conc: &c}
 	}
 	c := p.seqProp.gen(r, idx, tier)
+	if idx%8 == 1 && simGrpcAvailable() {
+		// the same histories through the external client: every handler's context ends when its
+		// call returns, while the deletions the call left behind are still queued
+		c.Client = "simgrpc"
+		for i := range c.Ops {
+			if c.Ops[i].K == "reopen" {
+				c.Ops[i] = Op{K: "drain"}
+			}
+		}
+	}
 	return C14Case{Seq: &c}
 }
 func (p propC14) Decode(b json.RawMessage) (any, error) {
